@@ -49,6 +49,8 @@ class C09(InvProp):
         e1.add_faults(rng, scn, p_pause=0.5, p_rescue=0.1)
         if rng.chance(0.15):
             scn['edits'] = e1.gen_edits(rng, scn)
+        if rng.chance(0.25):
+            gen.add_valve_bypass(rng, scn)    # a valve with a bypass pipe that a time control closes
         return scn
 
     def attribute_exception(self, scn, out, v):
